@@ -56,6 +56,14 @@ def taskColumn (opts : List Rat) (costs : List Rat) : List Rat := costs.map (sna
 /-- number of refill rows `replace_duplicate_points` asks for -/
 def refillRequested (batch kept : Nat) : Nat := batch - kept
 
+/-- `SPENextPoints.draw_samples`, the bookkeeping after the rejection loop: `accepted` = all proposal points accepted
+    so far (each a perturbed-and-restricted point), `pad` = what the uniform sampler returns when asked for the missing
+    rows, `pick` = the rows `numpy.random.choice(..., replace=False)` keeps when there are too many. -/
+def drawSamples {P} (k : Nat) (accepted : List P) (pad : Nat → List P) (pick : List P → List P) : List P :=
+  if accepted.length < k then accepted ++ pad (k - accepted.length)
+  else if k < accepted.length then pick accepted
+  else accepted
+
 /-- `select_random_task_by_softmax`: probability of each task option, `exp(-cost) / Σ exp(-cost)` -/
 def softmaxWeights {α} [Arith α] (costs : List α) : List α :=
   let z := Arith.sum (costs.map fun c => Arith.exp (-c))
